@@ -1,6 +1,10 @@
 """Facts for C15 (back-pressure): decision tables of the real pause_writing / resume_writing /
 connection_lost on both transports (run on a stub asyncio transport), the shape of write()
-(does it re-check the event in a loop?), max_send_delay, fingerprints."""
+(does it re-check the event in a loop?  does it frame once and hand the frame to the asyncio
+transport in exactly one call, outside any loop, with every suspension point before that call?),
+the shape of `_send_message` (write under timeout_after(max_send_delay); TaskTimeout -> abort,
+unconditionally, then re-raise), what abort() does to the asyncio transport, max_send_delay,
+fingerprints."""
 import ast
 import asyncio
 
@@ -26,6 +30,12 @@ class _Stub:
 
     def write(self, data):
         self.calls.append('write')
+
+    def abort(self):
+        self.calls.append('abort')
+
+    def close(self):
+        self.calls.append('close')
 
 
 class _Framer:
@@ -85,6 +95,164 @@ def write_shape(tree, clsname):
     return loops
 
 
+_SUSPEND = (ast.Await, ast.AsyncFor, ast.AsyncWith, ast.Yield, ast.YieldFrom)
+_LOOPS = (ast.For, ast.While, ast.AsyncFor, ast.ListComp, ast.SetComp, ast.DictComp,
+          ast.GeneratorExp)
+
+
+def _is_self_attr(n, attr):
+    return (isinstance(n, ast.Attribute) and n.attr == attr and isinstance(n.value, ast.Name)
+            and n.value.id == 'self')
+
+
+def _pos(n):
+    return (n.lineno, n.col_offset)
+
+
+def write_atomic(tree, clsname):
+    """(frame_once, write_atomic) for `<cls>.write`:
+    frame_once   - exactly one call `<anything>.frame(...)`, not inside a loop;
+    write_atomic - exactly one call `<asyncio transport>.write(...)` (the receiver is
+                   `self._asyncio_transport` or a local name assigned from it), not inside a loop,
+                   and every suspension point of the function (await / async with / async for /
+                   yield) comes before it - so between the last wait on `_can_send` and the
+                   hand-over of the whole frame nothing else can run."""
+    node = common.find(tree, f'{clsname}.write')
+    if node is None:
+        return False, False
+    aliases = set()
+    for n in ast.walk(node):
+        if isinstance(n, ast.Assign) and _is_self_attr(n.value, '_asyncio_transport'):
+            aliases |= {t.id for t in n.targets if isinstance(t, ast.Name)}
+
+    def is_transport(n):
+        return _is_self_attr(n, '_asyncio_transport') or (isinstance(n, ast.Name) and n.id in aliases)
+
+    in_loop = {}
+
+    def visit(n, looped):
+        in_loop[id(n)] = looped
+        for c in ast.iter_child_nodes(n):
+            visit(c, looped or isinstance(n, _LOOPS))
+
+    visit(node, False)
+    calls = [n for n in ast.walk(node) if isinstance(n, ast.Call) and isinstance(n.func, ast.Attribute)]
+    frames = [n for n in calls if n.func.attr == 'frame']
+    writes = [n for n in calls if n.func.attr == 'write' and is_transport(n.func.value)]
+    suspends = [n for n in ast.walk(node) if isinstance(n, _SUSPEND)]
+    frame_once = len(frames) == 1 and not in_loop[id(frames[0])]
+    atomic = (len(writes) == 1 and not in_loop[id(writes[0])]
+              and all(_pos(s) < _pos(writes[0]) for s in suspends))
+    return frame_once, atomic
+
+
+def send_shape(tree):
+    """(wraps, aborts) for SessionBase._send_message:
+    wraps  - `await self.transport.write(..)` sits inside `async with timeout_after(
+             self.max_send_delay)` inside a try;
+    aborts - that try has a handler for TaskTimeout whose body, at its top level (not under any
+             condition), awaits `self.abort()` and ends with a bare `raise`."""
+    node = common.find(tree, 'SessionBase._send_message')
+    wraps = aborts = False
+    if node is None:
+        return wraps, aborts
+    for tr in [n for n in ast.walk(node) if isinstance(n, ast.Try)]:
+        for w in [n for b in tr.body for n in ast.walk(b) if isinstance(n, ast.AsyncWith)]:
+            ok_ctx = any(isinstance(i.context_expr, ast.Call)
+                         and getattr(i.context_expr.func, 'id', None) == 'timeout_after'
+                         and len(i.context_expr.args) == 1
+                         and _is_self_attr(i.context_expr.args[0], 'max_send_delay')
+                         for i in w.items)
+            ok_body = any(isinstance(n, ast.Await) and isinstance(n.value, ast.Call)
+                          and isinstance(n.value.func, ast.Attribute) and n.value.func.attr == 'write'
+                          and _is_self_attr(n.value.func.value, 'transport')
+                          for b in w.body for n in ast.walk(b))
+            if not (ok_ctx and ok_body):
+                continue
+            wraps = True
+            for h in tr.handlers:
+                names = [h.type] if not isinstance(h.type, ast.Tuple) else list(h.type.elts)
+                if not any(isinstance(x, ast.Name) and x.id == 'TaskTimeout' for x in names):
+                    continue
+                calls_abort = any(
+                    isinstance(st, ast.Expr) and isinstance(st.value, ast.Await)
+                    and isinstance(st.value.value, ast.Call)
+                    and _is_self_attr(st.value.value.func, 'abort') for st in h.body)
+                reraises = bool(h.body) and isinstance(h.body[-1], ast.Raise) and h.body[-1].exc is None
+                aborts = calls_abort and reraises
+    return wraps, aborts
+
+
+def abort_table(mod, clsname, kind):
+    """what `await proto.abort()` calls on the asyncio transport, closing or not"""
+    out = []
+    loop = asyncio.new_event_loop()
+    asyncio.set_event_loop(loop)
+    try:
+        for closing in (False, True):
+            proto = getattr(mod, clsname)(lambda t: None, _Framer(), kind)
+            stub = _Stub(closing)
+            proto._asyncio_transport = stub
+            loop.run_until_complete(proto.abort())
+            out.append(list(stub.calls))
+    finally:
+        asyncio.set_event_loop(None)
+        loop.close()
+    return out
+
+
+def _calls(tree, pred):
+    return [n for n in ast.walk(tree) if isinstance(n, ast.Call) and isinstance(n.func, ast.Attribute)
+            and pred(n.func)]
+
+
+def single_write_path(repo):
+    """call-site facts: in session.py every `<..>.transport.write(..)` call is the one inside
+    SessionBase._send_message (so every sender - responses, requests, notifications - goes through
+    the max_send_delay wrapper); in rawsocket.py / unixsocket.py the only
+    `<..>._asyncio_transport.write(..)` call is the one inside the transport's `write`"""
+    ok = True
+    st = common.parse(repo, 'aiorpcx/session.py')
+    is_tw = lambda f: f.attr == 'write' and isinstance(f.value, ast.Attribute) and f.value.attr == 'transport'
+    inside = common.find(st, 'SessionBase._send_message')
+    ok &= inside is not None and len(_calls(st, is_tw)) == 1 and len(_calls(inside, is_tw)) == 1
+    for rel, cls in (('aiorpcx/rawsocket.py', 'RSTransport'), ('aiorpcx/unixsocket.py', 'USTransport')):
+        t = common.parse(repo, rel)
+        is_aw = lambda f: f.attr == 'write' and isinstance(f.value, ast.Attribute) \
+            and f.value.attr == '_asyncio_transport'
+        w = common.find(t, f'{cls}.write')
+        ok &= w is not None and len(_calls(t, is_aw)) == len(_calls(w, is_aw))
+    return bool(ok)
+
+
+def close_table(mod, clsname, kind):
+    """what `await proto.close(force_after)` calls on the asyncio transport (with the closed
+    event already set, so that the wait returns at once), closing or not; and the truth table
+    of is_closing() over (closed event set, asyncio transport closing)"""
+    calls, closing_tab = [], []
+    loop = asyncio.new_event_loop()
+    asyncio.set_event_loop(loop)
+    try:
+        for closing in (False, True):
+            proto = getattr(mod, clsname)(lambda t: None, _Framer(), kind)
+            stub = _Stub(closing)
+            proto._asyncio_transport = stub
+            proto._closed_event.set()
+            loop.run_until_complete(proto.close(1000))
+            calls.append(list(stub.calls))
+        for ev_set in (False, True):
+            for closing in (False, True):
+                proto = getattr(mod, clsname)(lambda t: None, _Framer(), kind)
+                proto._asyncio_transport = _Stub(closing)
+                if ev_set:
+                    proto._closed_event.set()
+                closing_tab.append(bool(proto.is_closing()))
+    finally:
+        asyncio.set_event_loop(None)
+        loop.close()
+    return calls, closing_tab
+
+
 def extract(repo):
     rs = common.fresh_import(repo, 'aiorpcx.rawsocket')
     us = common.fresh_import(repo, 'aiorpcx.unixsocket')
@@ -92,19 +260,33 @@ def extract(repo):
     kind = sess.SessionKind.SERVER
     t_rs = table(rs, 'RSTransport', kind)
     t_us = table(us, 'USTransport', kind)
+    fo_rs, wa_rs = write_atomic(common.parse(repo, 'aiorpcx/rawsocket.py'), 'RSTransport')
+    fo_us, wa_us = write_atomic(common.parse(repo, 'aiorpcx/unixsocket.py'), 'USTransport')
+    wraps, aborts = send_shape(common.parse(repo, 'aiorpcx/session.py'))
     return {
         'table_rs': t_rs, 'table_us': t_us,
+        'frame_once_rs': fo_rs, 'write_atomic_rs': wa_rs,
+        'frame_once_us': fo_us, 'write_atomic_us': wa_us,
+        'send_wraps_write': wraps, 'send_aborts_unconditionally': aborts,
+        'abort_rs': abort_table(rs, 'RSTransport', kind),
+        'abort_us': abort_table(us, 'USTransport', kind),
+        'single_write_path': single_write_path(repo),
+        'close_rs': close_table(rs, 'RSTransport', kind),
+        'close_us': close_table(us, 'USTransport', kind),
         'write_loops_rs': write_shape(common.parse(repo, 'aiorpcx/rawsocket.py'), 'RSTransport'),
         'write_loops_us': write_shape(common.parse(repo, 'aiorpcx/unixsocket.py'), 'USTransport'),
         'max_send_delay': float(sess.SessionBase.max_send_delay),
         'fingerprints': common.fingerprints(repo, {
             'aiorpcx/rawsocket.py': ['RSTransport.pause_writing', 'RSTransport.resume_writing',
                                      'RSTransport.write', 'RSTransport.connection_lost',
-                                     'RSTransport.is_closing', 'RSTransport.abort'],
+                                     'RSTransport.is_closing', 'RSTransport.abort',
+                                     'RSTransport.close'],
             'aiorpcx/unixsocket.py': ['USTransport.pause_writing', 'USTransport.resume_writing',
                                       'USTransport.write', 'USTransport.connection_lost',
-                                      'USTransport.is_closing', 'USTransport.abort'],
-            'aiorpcx/session.py': ['SessionBase._send_message', 'SessionBase.abort']}),
+                                      'USTransport.is_closing', 'USTransport.abort',
+                                      'USTransport.close'],
+            'aiorpcx/session.py': ['SessionBase._send_message', 'SessionBase.abort',
+                                   'SessionBase.close']}),
     }
 
 
@@ -136,6 +318,29 @@ def render(f):
         '/-- `write()` waits for `_can_send` inside an awaiting `while` loop -/\n'
         f'def writeLoopsRS : Bool := {b(f["write_loops_rs"])}\n'
         f'def writeLoopsUS : Bool := {b(f["write_loops_us"])}\n'
-        f'/-- SessionBase.max_send_delay, in milliseconds -/\n'
+        '/-- `write()` calls `frame(..)` exactly once, outside any loop -/\n'
+        f'def frameOnceRS : Bool := {b(f["frame_once_rs"])}\n'
+        f'def frameOnceUS : Bool := {b(f["frame_once_us"])}\n'
+        '/-- `write()` hands the frame to the asyncio transport in exactly one call, outside any\n'
+        '    loop, with every suspension point of the function before that call -/\n'
+        f'def writeAtomicRS : Bool := {b(f["write_atomic_rs"])}\n'
+        f'def writeAtomicUS : Bool := {b(f["write_atomic_us"])}\n'
+        '/-- `_send_message`: the write is awaited under `timeout_after(self.max_send_delay)` -/\n'
+        f'def sendWrapsWrite : Bool := {b(f["send_wraps_write"])}\n'
+        '/-- `_send_message`: `except TaskTimeout:` awaits `self.abort()` at the top level of the\n'
+        '    handler (under no condition) and re-raises -/\n'
+        f'def sendAbortsUnconditionally : Bool := {b(f["send_aborts_unconditionally"])}\n'
+        '/-- `await transport.abort()` calls exactly `abort()` on the asyncio transport, whether\n'
+        '    or not it is already closing (both transports) -/\n'
+        f'def abortAborts : Bool := {b(f["abort_rs"] == [["abort"], ["abort"]] and f["abort_us"] == [["abort"], ["abort"]])}\n'
+        '/-- session.py writes to the transport only inside `_send_message`; the transports write\n'
+        '    to the asyncio transport only inside their `write` -/\n'
+        f'def singleWritePath : Bool := {b(f["single_write_path"])}\n'
+        '/-- `await transport.close(force_after)` first calls exactly `close()` on the asyncio\n'
+        '    transport (both transports, closing or not) -/\n'
+        f'def closeCloses : Bool := {b(all(c[0] == [["close"], ["close"]] for c in (f["close_rs"], f["close_us"])))}\n'
+        '/-- `is_closing()` = closed event set OR asyncio transport closing (both transports) -/\n'
+        f'def isClosingIsOr : Bool := {b(all(c[1] == [False, True, True, True] for c in (f["close_rs"], f["close_us"])))}\n'
+        '/-- SessionBase.max_send_delay, in milliseconds -/\n'
         f'def maxSendDelayMs : Int := {int(round(md * 1000))}\n'
         'end Aiorpcx.Facts.C15\n')
